@@ -1,6 +1,6 @@
 """Group T: the table pipeline (FIRST, closure, state construction, merge, propagation) against the textbook rules.
 Shared by C01 and C04."""
-from . import mir, rt
+from . import mir, rt, idiom
 from .mir import Sim, TermBuilder, callee, fmt, has_call, has_field
 from .rt import is_call, calls, idx
 
@@ -30,10 +30,21 @@ def reach_within(f, start, allowed):
 def fixpoint_loop(F, res, rid, f, flag, containers, label):
     """T-R2 for one loop: flag var `flag` of function f; containers = field/var names of the monotone sets."""
     L = f.local_of_var(flag)
-    if L is None:
-        res.anchor_lost(rid, "%s: flag variable `%s` not found" % (label, flag), f.loc())
-        return
     loops = loops_of(f)
+    if L is None:
+        # renamed: the flag is the one named bool variable that a loop header of this function switches on
+        cands = set()
+        for h in loops:
+            t = f.blocks[h]["term"]
+            if t["k"] == "switch" and t.get("ty") == "bool" and t["op"]["k"] in ("copy", "move") and not t["op"]["p"]["proj"]:
+                nm = f.var_name(t["op"]["p"]["l"])
+                if nm:
+                    cands.add(nm)
+        if len(cands) != 1:
+            res.anchor_lost(rid, "%s: flag variable `%s` not found" % (label, flag), f.loc())
+            return
+        flag = cands.pop()
+        L = f.local_of_var(flag)
     # the loop whose header switches on the flag
     header = None
     for h, body in loops.items():
@@ -245,52 +256,95 @@ def r3_monotone(F, res, rid):
         res.anchor_lost(rid, "%d mutating calls on LRItem.follow found, 3 expected" % n)
 
 
+def _r4_firsts_scan(F, res, rid, f, loops):
+    """FIRST(X1..Xn), in whatever control-flow spelling (flags + break, early return): per element x of FIRST(Xi): x is
+    EMPTY => Xi is marked nullable and x is not added, else x is added; the mark is cleared for every Xi; a non-nullable Xi
+    ends the scan without adding EMPTY; running out of symbols adds EMPTY."""
+    inner = min(loops.items(), key=lambda kv: len(kv[1]))
+    outer = max(loops.items(), key=lambda kv: len(kv[1]))
+    def is_empty_cmp(tm):
+        return (tm[0] == "bin" and tm[1] in ("Eq", "Ne") and (has_field(tm[3], "empty_index") or has_field(tm[2], "empty_index"))) or \
+            (is_call(tm, "::eq") and any(has_field(a, "empty_index") for a in tm[2])) or \
+            (is_call(tm, "::ne") and any(has_field(a, "empty_index") for a in tm[2]))
+    def is_eq(tm, v):
+        neg = (tm[0] == "bin" and tm[1] == "Ne") or is_call(tm, "::ne")
+        return (v == 1) != neg
+    def set_inserts(p):
+        return [e for e in p.events if e[0] == "call" and "BTreeSet" in e[1] and e[1].endswith("::insert")]
+    # (1) element table; the nullable mark is whichever bool variable is raised on the `== EMPTY` branch
+    rows = set()
+    marks = set()
+    for p in Sim(f, F).run(entry=inner[0]):
+        if p.end != "backedge":
+            continue
+        eq = [(tm, v) for tm, v in p.cond if is_empty_cmp(tm)]
+        if not eq:
+            continue
+        iseq = is_eq(*eq[0])
+        raised = [e[1] for e in p.events if e[0] == "set" and e[2] == ("const", 1) and f.local_ty(f.local_of_var(e[1]) or 0) == "bool"]
+        if iseq:
+            marks.update(raised)
+        rows.add((iseq, bool(set_inserts(p)), bool(raised)))
+    exp = {(True, False, True), (False, True, False)}
+    if not rows or len(marks) != 1:
+        res.anchor_lost(rid, "firsts: comparison with EMPTY / nullable mark not recognised (rows %s, marks %s)" % (sorted(rows), sorted(marks)), f.loc())
+        return
+    if rows == exp:
+        res.ok(rid, "firsts/element", f.loc(), "x == EMPTY => symbol marked nullable (x not inserted); else x inserted")
+    else:
+        res.violation(rid, "firsts/element", "FIRST of a string: per-element table (x == EMPTY, inserted, marked nullable) is %s, "
+                      "textbook %s" % (sorted(rows), sorted(exp)), f.loc())
+    mark = marks.pop()
+    # (2) scan: from the head of the symbol loop
+    ok_reset = ok_stop = ok_all = None
+    why = ""
+    for p in Sim(f, F).run(entry=outer[0]):
+        nx = [v for tm, v in p.cond if tm[0] == "discr" and is_call(tm[1], "Iterator>::next")]
+        if not nx:
+            continue
+        adds_empty = any(has_field(e[2][1], "empty_index") for e in set_inserts(p) if len(e[2]) > 1)
+        if nx[0] == frozenset(["None"]):
+            # out of symbols: EMPTY is added (a path without it must hang on a flag the simulator cannot resolve)
+            if p.end == "return" and adds_empty:
+                ok_all = True
+            elif p.end == "return" and not any(tm[0] == "var" for tm, _ in p.cond):
+                ok_all = False
+                why = "running out of symbols does not add EMPTY"
+        elif nx[0] == frozenset(["Some"]):
+            sets = [e for e in p.events if e[0] == "set" and e[1] == mark]
+            if sets and ok_reset is not False:
+                ok_reset = sets[0][2] == ("const", 0)
+            mc = [v for tm, v in p.cond if tm == ("var", mark)]
+            if not mc and len(nx) > 1 and nx[-1] == frozenset(["None"]) and sets and sets[-1][2][0] == "const":
+                # the element loop was left on this path with the mark still holding the value it was given here
+                mc = [sets[-1][2][1]]
+            if mc and mc[-1] == 0:
+                # the symbol is not nullable: the scan ends here, without EMPTY
+                good = p.end == "return" and not adds_empty
+                if ok_stop is not False:
+                    ok_stop = good
+                if not good:
+                    why = "after a symbol that is not nullable the scan %s" % ("goes on" if p.end == "backedge" else "adds EMPTY")
+    for key, ok, good_msg, bad_msg in (
+            ("firsts/empty-reset", ok_reset, "the nullable mark is cleared for every symbol", "the nullable mark is not cleared for every symbol of the string"),
+            ("firsts/stop-at-non-nullable", ok_stop, "a non-nullable symbol ends the scan without EMPTY", "FIRST of a string: " + why),
+            ("firsts/empty-iff-all-nullable", ok_all, "EMPTY is added when the symbols run out", "FIRST of a string: " + why)):
+        if ok is None:
+            res.anchor_lost(rid, "firsts: %s - not recognised" % key, f.loc())
+        elif ok:
+            res.ok(rid, key, f.loc(), good_msg)
+        else:
+            res.violation(rid, key, bad_msg, f.loc())
+
+
 def r4_first(F, res, rid):
     """FIRST of a symbol string and the FIRST-set fixpoint body."""
     f = F.one(r"^rustemo_compiler::table::firsts$")
     loops = loops_of(f)
-    inner = min(loops.items(), key=lambda kv: len(kv[1]))
-    outer = max(loops.items(), key=lambda kv: len(kv[1]))
-    rows = set()
-    for p in Sim(f, F).run(entry=inner[0]):
-        if p.end != "backedge":
-            continue
-        eq = [v for t, v in p.cond if t[0] == "bin" and t[1] == "Eq" and has_field(t[3], "empty_index")] + \
-             [v for t, v in p.cond if is_call(t, "::eq") and any(has_field(a, "empty_index") for a in t[2])]
-        ins = [e for e in p.events if e[0] == "call" and "BTreeSet" in e[1] and e[1].endswith("::insert")]
-        se = [e for e in p.events if e[0] == "set" and e[1] == "empty"]
-        if eq:
-            rows.add((eq[0], bool(ins), fmt(se[-1][2]) if se else None))
-    exp = {(1, False, "1"), (0, True, None)}
-    if rows == exp:
-        res.ok(rid, "firsts/element", f.loc(), "x == EMPTY => empty := true (not inserted); else inserted")
+    if len(loops) < 2:
+        res.anchor_lost(rid, "firsts: the scan over the symbols and the loop over one symbol's FIRST set were not both found", f.loc())
     else:
-        res.violation(rid, "firsts/element", "FIRST of a string: per-element table is %s, textbook %s" % (sorted(rows, key=str), sorted(exp, key=str)), f.loc())
-    # after the loops: EMPTY inserted iff !break_out; break iff !empty
-    rows = set()
-    for p in Sim(f, F).run():
-        if p.end != "return":
-            continue
-        bo = [v for t, v in p.cond if t == ("var", "break_out") or (t[0] == "var" and t[1] == "break_out")]
-        ins = [e for e in p.events if e[0] == "call" and "BTreeSet" in e[1] and e[1].endswith("::insert") and has_field(e[2][1], "empty_index")]
-        sets = [fmt(e[2]) for e in p.events if e[0] == "set" and e[1] == "break_out"]
-        rows.add((sets[-1] if sets else None, bool(ins)))
-    if rows and all((v == "1") != ins for v, ins in rows if v is not None):
-        res.ok(rid, "firsts/empty-iff-all-nullable", f.loc(), "EMPTY is added iff the scan did not break out")
-    else:
-        res.violation(rid, "firsts/empty-iff-all-nullable", "FIRST of a string: EMPTY insertion table is %s (must be added iff every symbol "
-                      "is nullable)" % sorted(rows, key=str), f.loc())
-    # `empty` reset at the start of every outer iteration and break on !empty
-    rows = set()
-    for p in Sim(f, F).run(entry=outer[0]):
-        se = [fmt(e[2]) for e in p.events if e[0] == "set" and e[1] == "empty"]
-        bo = [fmt(e[2]) for e in p.events if e[0] == "set" and e[1] == "break_out"]
-        if se:
-            rows.add((se[0], p.end))
-    if rows and all(r[0] == "0" for r in rows):
-        res.ok(rid, "firsts/empty-reset", f.loc(), "empty := false at the start of every symbol")
-    else:
-        res.violation(rid, "firsts/empty-reset", "`empty` is not reset for every symbol of the string (%s)" % sorted(rows, key=str), f.loc())
+        _r4_firsts_scan(F, res, rid, f, loops)
     # first_sets fixpoint body: every production contributes firsts(rhs) to its own lhs
     g = F.one(r"^rustemo_compiler::table::first_sets$")
     gl = loops_of(g)
@@ -354,11 +408,24 @@ def r5_closure(F, res, rid):
                 res.violation(rid, "only-nonterminal", "closure adds items although the symbol at the dot is not a nonterminal", f.loc())
             continue
         a1 = [v for t, v in p.cond if t[0] == "bin" and t[1] == "Lt" and has_field(t[2], "position", "LRItem")]
-        a2 = [v for t, v in p.cond if is_call(t, "BTreeSet::<T, A>::contains") and has_field(t[2][1], "empty_index")]
+        # "FIRST(suffix) contains EMPTY": `contains(EMPTY)` or the bool that `remove(EMPTY)` returns
+        a2 = [v for t, v in p.cond if (is_call(t, "BTreeSet::<T, A>::contains") or is_call(t, "BTreeSet::<T, A>::remove"))
+              and len(t[2]) > 1 and has_field(t[2][1], "empty_index")]
         fc = calls(p, "table::firsts")
-        rm = [e for e in p.events if e[0] == "call" and "BTreeSet" in e[1] and e[1].endswith("::remove")]
-        ex = [e for e in p.events if e[0] == "call" and e[1].endswith("::extend") and has_field(e[2][1] if len(e[2]) > 1 else e[2][0], "follow", "LRItem")]
-        rows.add((a1[0] if a1 else None, a2[0] if a2 else None, bool(fc), bool(rm), bool(ex)))
+        wf0 = calls(p, "LRItem::with_follow")
+        if not wf0:
+            continue
+        # abstract value of the lookahead set handed to the new items: (starts from FIRST(suffix), EMPTY removed, item's
+        # lookaheads added), read off the operations on that object in path order
+        base = wf0[0][2][3]
+        wi = p.events.index(wf0[0])
+        def on_base(e):
+            return e[0] == "call" and e[2] and idiom.same(e[2][0], base)
+        removed = any(on_base(e) and "BTreeSet" in e[1] and e[1].endswith("::remove") and has_field(e[2][1], "empty_index") for e in p.events[:wi])
+        extended = any(on_base(e) and e[1].endswith("::extend") and has_field(e[2][1], "follow", "LRItem") for e in p.events[:wi])
+        from_first = is_call(base, "table::firsts")
+        from_follow = not from_first and has_field(base, "follow", "LRItem")
+        rows.add((a1[0] if a1 else None, a2[0] if a2 else None, from_first, removed, extended or from_follow))
         if fc and suffix_ok is None:
             s = fc[0][2][2]
             # production_rhs_symbols(item.prod)[item.position + 1 ..]
@@ -375,13 +442,27 @@ def r5_closure(F, res, rid):
             items_ok = has_field(prods_src, "productions", "NonTerminal") and has_call(prods_src, "symbol_to_nonterm_index")
             if not items_ok:
                 res.violation(rid, "new-items", "closure creates items for %s, expected every production of the nonterminal at the dot" % fmt(prods_src)[:120], f.loc())
-    exp = {(1, 1, True, True, True), (1, 0, True, False, False), (0, None, False, False, True)}
-    if rows == exp:
+    # textbook: suffix empty -> the item's lookaheads; suffix non-empty -> FIRST(suffix), and iff that contains EMPTY: without
+    # EMPTY, plus the item's lookaheads (removing an absent EMPTY is a no-op, so the `removed` column is free when it is absent)
+    def row_ok(r):
+        nonempty, eps, ff, rem, plus = r
+        if nonempty == 0:
+            return (not ff) and plus
+        if nonempty == 1 and eps == 1:
+            return ff and rem and plus
+        if nonempty == 1 and eps == 0:
+            return ff and not plus
+        return None
+    verdicts = {r: row_ok(r) for r in rows}
+    situations = {(r[0], r[1] if r[0] == 1 else None) for r in rows}
+    if not rows or None in verdicts.values() or situations != {(0, None), (1, 0), (1, 1)}:
+        res.anchor_lost(rid, "closure lookahead computation not recognised (rows %s)" % sorted(rows, key=str), f.loc())
+    elif all(verdicts.values()):
         res.ok(rid, "lookahead-rule", f.loc(), "suffix non-empty: FIRST(suffix), and if it contains EMPTY remove it and add the item's "
                "lookaheads; suffix empty: the item's lookaheads")
     else:
-        res.violation(rid, "lookahead-rule", "closure lookahead table (suffix non-empty, contains EMPTY -> firsts, remove EMPTY, add item's "
-                      "follow) is %s, textbook %s" % (sorted(rows, key=str), sorted(exp, key=str)), f.loc())
+        res.violation(rid, "lookahead-rule", "closure lookahead table (suffix non-empty, FIRST(suffix) has EMPTY -> starts from FIRST(suffix), "
+                      "EMPTY removed, item's lookaheads added) is %s" % sorted(rows, key=str), f.loc())
     if suffix_ok:
         res.ok(rid, "suffix", f.loc())
     if items_ok:
@@ -624,10 +705,44 @@ def r10_rn(F, res, rid):
                 rows.add((c[0], bool(dec), p.end))
     names = {callee(t) for _, t in g.calls()} | {callee(t) for cl in F.all_nested_closures(g) for _, t in cl.calls()}
     rev = any(n.endswith("Iterator::rev") for n in names)
-    if rows and all((c == 1) == d for c, d, e in rows) and {c for c, d, e in rows} == {0, 1} and rev:
-        res.ok(rid, "rn-scan", g.loc(), "right to left, decrement while the symbol is nullable, stop at the first that is not")
+    def sub_of_len(x):
+        return isinstance(x, tuple) and x[0] == "bin" and x[1] == "Sub" and has_call(x[2], "::len")
+    if rows:
+        dec_names = set()
+        for p in Sim(g, F).run(entry=inner[0]):
+            dec_names.update(e[1] for e in p.events if e[0] == "set" and e[2][0] == "bin" and e[2][1] == "Sub")
+        # name-independent: the decremented counter is whatever variable is decremented in the loop
+        rows = set()
+        for p in Sim(g, F).run(entry=inner[0]):
+            c = [v for t, v in p.cond if is_call(t, "BTreeSet::<T, A>::contains") and has_field(t[2][1], "empty_index")]
+            dec = [e for e in p.events if e[0] == "set" and e[1] in dec_names and e[2][0] == "bin" and e[2][1] == "Sub"]
+            if c:
+                stays = bool(p.events) and p.events[-1] == ("backedge", inner[0]) and set(p.blocks) <= set(inner[1]) | {inner[0]}
+                rows.add((c[0], bool(dec), stays))
+        if all((c == 1) == d for c, d, e in rows) and {c for c, d, e in rows} == {0, 1} and rev and \
+                all(e for c, d, e in rows if c == 1) and all(not e for c, d, e in rows if c == 0):
+            res.ok(rid, "rn-scan", g.loc(), "right to left, decrement while the symbol is nullable, stop at the first that is not")
+        else:
+            res.violation(rid, "rn-scan", "right-nulled length scan table (nullable, decremented, continues) is %s (rev: %s)" % (
+                sorted(rows, key=str), rev), g.loc())
     else:
-        res.violation(rid, "rn-scan", "right-nulled length scan table is %s (rev: %s)" % (sorted(rows, key=str), rev), g.loc())
+        # second spelling: rhs.len() - rhs_symbols().iter().rev().take_while(|s| FIRST(s) contains EMPTY).count()
+        tw = [(b, t2) for b, t2 in g.calls() if callee(t2).endswith("Iterator::take_while")]
+        okc = False
+        if tw and rev and any(n.endswith("Iterator::count") for n in names):
+            tbg = TermBuilder(g, F)
+            clo = tbg.operand(tw[0][1]["args"][1])
+            src = tbg.operand(tw[0][1]["args"][0])
+            if isinstance(clo, tuple) and clo[0] == "closure" and clo[1] in F.fns and has_call(src, "Iterator::rev"):
+                rets = [e[1] for q in Sim(F.fns[clo[1]], F).run() for e in q.events if e[0] == "return"]
+                pred_ok = rets and all(is_call(r, "BTreeSet::<T, A>::contains") and has_field(r[2][1], "empty_index") for r in rets)
+                pushes = [tbg.operand(t2["args"][1]) for b, t2 in g.calls() if callee(t2).endswith("::push") and len(t2["args"]) > 1]
+                if pred_ok and pushes and all(sub_of_len(x) and has_call(x[3], "Iterator::count") for x in pushes):
+                    okc = True
+        if okc:
+            res.ok(rid, "rn-scan", g.loc(), "len - (length of the longest nullable suffix), counted right to left with take_while")
+        else:
+            res.anchor_lost(rid, "right-nulled length scan not recognised (neither a decrementing loop nor rev().take_while(nullable).count())", g.loc())
     # every LRItem is built with rn_len of its own production
     n = 0
     for fn in F.fns.values():
